@@ -688,8 +688,8 @@ class Interp:
                         return SFunc(st.__func__, self_v=SFunc(v.obj.cands[0]) if isinstance(v.obj, SObj) else v.obj)
                     if isinstance(st, staticmethod):
                         return SFunc(st.__func__)
-                    if isinstance(st, pytypes.WrapperDescriptorType) and k is object:
-                        return SFunc(_object_noop)
+                    if isinstance(st, (pytypes.WrapperDescriptorType, pytypes.MethodDescriptorType)) and not in_repo_class(k):
+                        return SFunc(_object_noop)  # object.__init__ / Exception.__init__ ...
                     raise Unsupported(f"super().{name} resolves to {type(st).__name__}")
                 if k is v.cls:
                     after = True
@@ -1733,6 +1733,9 @@ class Interp:
         if v is not None:
             return v
         g = frame.module.__dict__
+        mk = ("modattr", frame.module.__name__, name)
+        if mk in self.ctx.ghost:
+            return self.ctx.ghost[mk]
         if name in g:
             return self.reflect(g[name], name)
         if hasattr(builtins, name):
